@@ -154,8 +154,9 @@ class C01Sched(SchedProp):
     module = 'c01'
     props_files = ['Props/C01.v']
     clauses = ['cores_disjoint', 'gpu_shares_le_1', 'lfs_mem_within_node', 'only_usable_resources',
+               'gpu_not_shared_between_tasks',
                'app_supplied:cores_disjoint', 'app_supplied:gpu_shares_le_1', 'app_supplied:lfs_mem_within_node',
-               'app_supplied:only_usable_resources']
+               'app_supplied:only_usable_resources', 'app_supplied:gpu_not_shared_between_tasks']
     row_fn = 'c01_row'
     rule = ('random histories (1-4 nodes x 1-8 cores x 0-3 GPUs, blocked cores/GPUs, lfs/mem; arrivals with ranks, '
             'cores/GPU shares/lfs/mem per rank, ranks_per_node, colocate/exclusive tags, priorities, named envs, '
